@@ -1212,7 +1212,18 @@ func (g *gen) loopBody(d int, what string, label string) []string {
 	if label != "" && g.chance("use-own-label", 70) {
 		kw := []string{"continue", "break"}[g.pick("ownlabelkw", 2)]
 		g.f(kw + "-label")
-		body = append(body, g.braced("if "+g.boolExpr(1), []string{kw + " " + label}, "")...)
+		if g.chance("label-from-inner-loop", 60) {
+			// from an inner loop, where the label makes a difference
+			g.f(kw + "-label-from-inner-loop")
+			j := g.name("j")
+			inner := []string{g.printStmt(j)}
+			inner = append(inner, g.braced(fmt.Sprintf("if %s == %d", j, g.pick("innerhit", 2)), []string{kw + " " + label}, "")...)
+			inner = append(inner, g.printStmt(j+" + 10"))
+			body = append(body, g.braced(fmt.Sprintf("for %s := 0; %s < 2; %s++", j, j, j), inner, "")...)
+			body = append(body, g.printStmt())
+		} else {
+			body = append(body, g.braced("if "+g.boolExpr(1), []string{kw + " " + label}, "")...)
+		}
 	}
 	if label != "" {
 		g.labels = g.labels[:len(g.labels)-1]
